@@ -1,5 +1,5 @@
 SPECIFICATION TraceSpec
 CONSTANTS MaxSeg = 0
-INVARIANTS TypeOK RecWellFormed RecHeadState RecHeadOrder RecDataClosed RecCanonHasHeads RecCanonLinked RecCanonEndsAtHead RecNoLoss RecLookupSound RecHeals
+INVARIANTS TypeOK RecWellFormed RecHeadState RecHeadOrder RecDataClosed RecCanonHasHeads RecCanonLinked RecCanonEndsAtHead RecNoLoss RecLookupSound RecHealsStrict RecStopsStrict
 POSTCONDITION TraceAccepted
 CHECK_DEADLOCK FALSE
